@@ -70,7 +70,32 @@ def expected_line(i, n, item):
     return str(item) + ',' + ','.join(v[a] for a in ATTRS)
 
 
+class SizedGen:
+    """a sized container whose iterator is a plain generator (like collections.abc mix-ins give)"""
+
+    def __init__(self, items):
+        self._items = list(items)
+
+    def __len__(self):
+        return len(self._items)
+
+    def __iter__(self):
+        yield from self._items
+
+
+def user_list(items):
+    import collections
+    return collections.UserList(items)
+
+
+def user_dict_items(pairs):
+    import collections
+    return collections.UserDict(pairs).items()
+
+
 KINDS = {
+    'userlist': lambda n: user_list(range(n)),
+    'sizedgen': lambda n: SizedGen(range(n)),
     'list': lambda n: list(range(n)),
     'tuple': lambda n: tuple(range(n)),
     'range': lambda n: range(n),
@@ -219,7 +244,8 @@ def gen_nest(rng, depth, ids):
         kids.append(gen_nest(rng, depth + 1, ids))
     tup = rng.random() < .25
     names = tuple(rng.sample(['x', 'y', 'z', 'w'], 2)) if tup else (rng.choice(NAMES),)
-    kind = rng.choice(['list', 'tuple', 'gen', 'iter', 'range', 'none', 'str']) if not tup else rng.choice(['pairs', 'dictitems', 'genpairs'])
+    kind = rng.choice(['list', 'tuple', 'gen', 'iter', 'range', 'none', 'str', 'userlist', 'sizedgen']) if not tup else rng.choice(
+        ['pairs', 'dictitems', 'genpairs', 'none', 'userdictitems', 'sizedgenpairs'])
     n = rng.choice([0, 1, 2, 3])
     return Loop(names, kind, n, kids, rng.choice(['tal', 'span']))
 
@@ -241,6 +267,14 @@ def make_iterable(loop, uid):
         return range(n)
     if k == 'str':
         return 'abcdef'[:n]
+    if k == 'userlist':
+        return user_list('%s%d' % (uid, i) for i in range(n))
+    if k == 'sizedgen':
+        return SizedGen('%s%d' % (uid, i) for i in range(n))
+    if k == 'userdictitems':
+        return user_dict_items({'%s%d' % (uid, i): i for i in range(n)})
+    if k == 'sizedgenpairs':
+        return SizedGen(('%s%d' % (uid, i), i) for i in range(n))
     if k == 'pairs':
         return [('%s%d' % (uid, i), i) for i in range(n)]
     if k == 'genpairs':
